@@ -324,10 +324,14 @@ def dd_system(rng, elt, n, kind):
     fns = []
     for i in range(n):
         d = 3.0 + 2 * rng.unit()
-        if rng.chance(1, 2): d = -d
+        if rng.chance(1, 2) or kind == "uppertri": d = -d
         e = F.mul(L(d), F.V(i))
         for j in range(n):
-            if j != i and (kind == "affine" or rng.chance(1, 2)):
+            # "uppertri": equation i depends on x_j for j >= i only, with a NEGATIVE diagonal derivative: every Jacobian column holds,
+            # from the diagonal down, a negative entry followed by exact zeros (the pivot search must keep the diagonal entry:
+            # seeded mutation C17-7 compared against a signed running maximum and swapped a zero in)
+            if kind == "uppertri" and j < i: continue
+            if j != i and (kind in ("affine", "uppertri") or rng.chance(1, 2)):
                 e = F.add(e, F.mul(L(val(-0.4, 0.4)), F.V(j)))
         if kind == "poly" and n >= 1:
             j = (i + 1) % n
@@ -345,14 +349,15 @@ def gen_systems(rng, N):
     cases = []
     for t in range(N):
         elt = 'f64' if t % 3 != 2 else 'cplx'
-        kind = "affine" if t % 4 == 0 else "poly"
+        kind = "affine" if t % 4 == 0 else ("uppertri" if t % 7 == 3 else "poly")
         n = 1 + (t * 7 + t // 6) % 6
+        if kind == "uppertri" and n < 2: n = 3
         if n >= 5 and t % 2: n -= 3
         fns, r, jac = dd_system(rng, elt, n, kind)
         tol, delta = pick_tol(rng), pick_delta(rng)
         pert = (lambda: 0.3 * cval(rng, -1, 1)) if elt == 'cplx' else (lambda: 0.3 * (2 * rng.unit() - 1))
         guess = [x + pert() for x in r]
-        need = 4 if kind == "affine" else 9
+        need = 4 if kind in ("affine", "uppertri") else 9
         iters = pick_iters(rng, need)
         if iters is not None and iters > 12 and n >= 4: iters = 12
         use_jac = (t % 5 in (1, 3))
